@@ -659,6 +659,9 @@ def run_python(case):
             # task "hash seed": when the answer depends on the iteration order of a Python set, are all answers right?
             "order_dependent_verdict": r["order_verdict"], "gen": case.get("gen", "random"),
             # Props/C08.lean idcstar_sound_fragment: inside the fragment the answer is proved right
+            # Props/C08.lean idcstar_own_recursion_terminates: no name is both an outcome and a condition
+            "termination_theorem_applies": not ({int(v_[1]) for v_, _ in case["outcomes"]} &
+                                                {int(v_[1]) for v_, _ in case["conditions"]}),
             "in_fragment_c": frag, "in_fragment_c_answered": bool(frag and shape in ("P", "sum", "prod", "frac"))}
     nontrivial = r["in_domain"] and K.n_worlds(jt) >= 1 and bool(case["g"]["di"] or case["g"]["bi"]) and \
         shape in ("P", "sum", "prod", "frac", "unidentifiable", "zero")
